@@ -77,6 +77,25 @@ Fixpoint smul_pos (k : positive) (P : point) : point :=
 Definition smul (k : Z) (P : point) : point :=
   match k with Zpos k' => smul_pos k' P | _ => pt_zero end.
 
+(* the 256 low bits of k, most significant first *)
+Fixpoint bits_lsb (n : nat) (k : Z) : list bool :=
+  match n with O => [] | S n' => Z.odd k :: bits_lsb n' (Z.shiftr k 1) end.
+Definition bits256 (k : Z) : list bool := rev (bits_lsb 256 k).
+
+(* [a]P + [b]Q for 0 <= a, b < 2^256 by simultaneous double-and-add (Straus), the way both Go's
+   VarTimeDoubleScalarBaseMult and the ZIP-215 reference implementation evaluate [S]B + [k](-A) *)
+Definition double_smul (a : Z) (P : point) (b : Z) (Q : point) : point :=
+  let PQ := pt_add P Q in
+  fold_left (fun acc (bb : bool * bool) =>
+               let acc2 := pt_double acc in
+               match bb with
+               | (true, true) => pt_add acc2 PQ
+               | (true, false) => pt_add acc2 P
+               | (false, true) => pt_add acc2 Q
+               | (false, false) => acc2
+               end)
+            (combine (bits256 a) (bits256 b)) pt_zero.
+
 Definition mul8 (P : point) : point := pt_double (pt_double (pt_double P)).
 
 (* canonical 32-byte encoding (RFC 8032 5.1.2) *)
@@ -125,7 +144,7 @@ Definition verify_zip215 (pk msg sig : list byte) : bool :=
   match pt_decode pk, pt_decode rb with
   | Some A, Some R =>
     let k := hram rb pk msg in
-    let Q := pt_add (smul s ed_B) (pt_neg (smul k A)) in
+    let Q := double_smul s ed_B k (pt_neg A) in
     pt_is_zero (mul8 (pt_add Q (pt_neg R)))
   | _, _ => false
   end.
@@ -139,7 +158,7 @@ Definition verify_go (pk msg sig : list byte) : bool :=
   match pt_decode pk with
   | Some A =>
     let k := hram rb pk msg in
-    let Q := pt_add (smul s ed_B) (pt_neg (smul k A)) in
+    let Q := double_smul s ed_B k (pt_neg A) in
     bytes_eqb (pt_encode Q) rb
   | None => false
   end.
@@ -153,7 +172,7 @@ Definition verify_both (pk msg sig : list byte) : bool * bool :=
   match pt_decode pk with
   | Some A =>
     let k := hram rb pk msg in
-    let Q := pt_add (smul s ed_B) (pt_neg (smul k A)) in
+    let Q := double_smul s ed_B k (pt_neg A) in
     (bytes_eqb (pt_encode Q) rb,
      match pt_decode rb with
      | Some R => pt_is_zero (mul8 (pt_add Q (pt_neg R)))
@@ -171,6 +190,14 @@ Definition gossamer_verify_signature (verify : list byte -> list byte -> list by
   else if negb (length sig =? 64)%nat then VErr
   else if verify pk msg sig then VOk else VFail.
 Definition ed25519_verify_signature := gossamer_verify_signature verify_go.
+
+(* what the driver evaluates per case: gossamer's verdict and the reference verdict, sharing the
+   scalar multiplications (equal to the two separate definitions: ProofsSig.v) *)
+Definition ed25519_case (pk sig msg : list byte) : sigverdict * bool :=
+  let '(g, z) := verify_both pk msg sig in
+  (if negb (length pk =? 32)%nat then VErr
+   else if negb (length sig =? 64)%nat then VErr
+   else if g then VOk else VFail, z).
 
 (* the class of inputs on which the two rule sets can give different verdicts: the encoding of
    R is not the canonical encoding of the point it decodes to, or A or R has a component of
